@@ -1,0 +1,27 @@
+//go:build verif
+
+// Contracts for the verification machinery in /verif (comment-only; no declarations).
+//
+// C07 (tier B): the in-memory peerstore answers "which of these protocols does the peer support" with members of the
+// question only, in the order asked (the dialer's optimistic choice in BasicHost.preferredProtocol relies on the
+// interface promise "from among the given protocols", specs/libp2p.spec).
+
+package pstoremem
+
+//@ func (pb *memoryProtoBook) SupportsProtocols
+//@ prop C07
+//@ opaque get
+//@ loop 0 invariant 0 <= idx0 && idx0 <= len(protos) && len(out) <= idx0
+//@ loop 0 invariant forall j int :: 0 <= j && j < len(out) ==> (exists i int :: 0 <= i && i < idx0 && out[j] == protos[i])
+//@ ensures result1 == nil
+//@ ensures len(result0) <= len(protos)
+//@ ensures forall j int :: 0 <= j && j < len(result0) ==> (exists i int :: 0 <= i && i < len(protos) && result0[j] == protos[i])
+//@ noframe
+
+//@ func (pb *memoryProtoBook) FirstSupportedProtocol
+//@ prop C07
+//@ opaque get
+//@ loop 0 invariant 0 <= idx0 && idx0 <= len(protos)
+//@ ensures result1 == nil
+//@ ensures result0 == "" || (exists i int :: 0 <= i && i < len(protos) && result0 == protos[i])
+//@ noframe
